@@ -186,7 +186,16 @@ def r02_1(run):
         except Exception as e:  # sympy corner cases -> not covered, never an alarm
             not_covered.append(f"{c.name}: forward {type(e).__name__}")
             continue
-        rank_tests = any(isinstance(n, ast.If) and isinstance(n.test, ast.Attribute) and n.test.attr in ("ndim", "size") for n in own_nodes(bv.node))
+        # a truth test of an array's rank anywhere in a branch condition (alone, negated, or as an operand of and/or)
+        def _rank_atoms(t_):
+            if isinstance(t_, ast.Attribute) and t_.attr in ("ndim", "size"):
+                return True
+            if isinstance(t_, ast.UnaryOp) and isinstance(t_.op, ast.Not):
+                return _rank_atoms(t_.operand)
+            if isinstance(t_, ast.BoolOp):
+                return any(_rank_atoms(v_) for v_ in t_.values)
+            return False
+        rank_tests = any(isinstance(n, ast.If) and _rank_atoms(n.test) for n in own_nodes(bv.node))
         scenarios = [("", {})] if not rank_tests else [(" [operands of rank > 0]", {"__rank__": True}), (" [0-d operands]", {"__rank__": False})]
         for k in range(nvars):
           for slabel, sassume in scenarios:
